@@ -34,9 +34,10 @@ Definition verdict (c : icase) : N :=
                | Ok _ => 0 | Err e => perr_code e | Panic _ => 9 end in
   let agree :=
     match m_act with
-    | Ok (Dispatch v) => (o_class c =? 0) && bytes_eqb v ob
-    | Ok (Reply r) => (o_class c =? 1) && bytes_eqb r ob
-    | Ok (Drop _) => (o_class c =? 2)
+    | Ok [Dispatched v] => (o_class c =? 0) && bytes_eqb v ob
+    | Ok [Sent r] => (o_class c =? 1) && bytes_eqb r ob
+    | Ok [] => (o_class c =? 2)
+    | Ok _ => false
     | Err _ => false
     | Panic _ => (o_class c =? 9)
     end && (if o_class c =? 9 then true else m_err =? o_err c) in
